@@ -180,7 +180,9 @@ def run_shards(module, func, arglist, timeout, workers=None, env_list=None):
                 stdout=subprocess.PIPE,
                 stderr=subprocess.PIPE,
                 timeout=timeout,
-                env=dict(env, VERIF_SHARD_DEADLINE=str(int(timeout) + 60), VERIF_SHARD_LOGGING=("debug" if (i == 1 and len(arglist) > 2) else "off")),
+                # environment dimensions: shard 1 runs with the library's loggers at DEBUG, shard 2 with
+                # assert statements stripped (python -O); behaviour must not depend on either
+                env=dict(env, VERIF_SHARD_DEADLINE=str(int(timeout) + 60), VERIF_SHARD_LOGGING=("debug" if (i == 1 and len(arglist) > 2) else "off"), PYTHONOPTIMIZE=("1" if (i == 2 and len(arglist) > 3) else "")),
                 cwd=HERE,
                 preexec_fn=_die_with_parent,
             )
